@@ -1,0 +1,43 @@
+/*
+ * Verification hooks. Compiled only with `--cfg smartcalc_verif`; the library itself never reads what is recorded here.
+ * A per-thread log of the steps of the rule engine (src/tokinizer/rule_tokinizer/mod.rs): the active typed tokens when
+ * the engine starts on a line, every rule whose function refused a match, every rewrite with the tokens after it.
+ */
+
+use alloc::string::String;
+use alloc::vec::Vec;
+use std::cell::{Cell, RefCell};
+
+/// (token kind as TokenType::type_name(), lower-cased word of a text token / character of an operator, else empty)
+pub type VerifToken = (String, String);
+
+#[derive(Debug, Clone)]
+pub enum RuleEvent {
+    Start(Vec<VerifToken>),
+    Refuse(String),
+    Apply(String, Vec<VerifToken>),
+    Done
+}
+
+std::thread_local! {
+    static ENABLED: Cell<bool> = Cell::new(false);
+    static LOG: RefCell<Vec<RuleEvent>> = RefCell::new(Vec::new());
+}
+
+pub fn enable(on: bool) {
+    ENABLED.with(|enabled| enabled.set(on));
+}
+
+pub fn is_enabled() -> bool {
+    ENABLED.with(|enabled| enabled.get())
+}
+
+pub fn push(event: RuleEvent) {
+    if is_enabled() {
+        LOG.with(|log| log.borrow_mut().push(event));
+    }
+}
+
+pub fn take() -> Vec<RuleEvent> {
+    LOG.with(|log| log.borrow_mut().drain(..).collect())
+}
